@@ -76,7 +76,7 @@ func loadKey(t testing.TB, name string) *rsaKey {
 	return k
 }
 
-var plainKeyNames = []string{"plain-1024", "plain-1536", "plain-2041", "plain-2048", "plain-3072", "plain-4096"}
+var plainKeyNames = []string{"plain-1024", "plain-1025", "plain-1026", "plain-1027", "plain-1028", "plain-1029", "plain-1030", "plain-1031", "plain-1536", "plain-2041", "plain-2048", "plain-3072", "plain-4096"}
 var safeKeyNames = []string{"safe-1024", "safe-1536", "safe-2048"}
 
 // power computes c^d mod N with the CRT (workload generator: signing crafted
@@ -251,4 +251,52 @@ func TestVerifSelfCheckPSS(t *testing.T) {
 			t.Fatalf("%s: augmented exponent malformed", name)
 		}
 	}
+}
+
+// craftedBlindSigs returns blind signatures an attacker holding the private
+// exponent d (the signer itself) can substitute for the genuine z: z' = z *
+// (EM'/EM)^d mod N unblinds to EM'^d, the RSA signature of an encoded message
+// EM' related to the genuine EM = sig^e: EM plus 2^(8 emLen) (the octet in
+// front of a PSS block that is one octet shorter than the modulus), EM plus
+// 2^emBits (bit above the PSS block), EM with the trailer / a middle / the top
+// payload bit flipped, -EM.  Finalize has to refuse every one of them: a
+// verification that looks only at the right-aligned emLen octets, or masks the
+// leading bits instead of checking them, accepts one of the first two.
+func craftedBlindSigs(k *rsaKey, z, sig []byte, e, d *big.Int) (out []struct {
+	class string
+	data  []byte
+}) {
+	N := k.N
+	em := new(big.Int).Exp(new(big.Int).SetBytes(sig), e, N)
+	emInv := new(big.Int).ModInverse(em, N)
+	if emInv == nil {
+		return nil
+	}
+	emLen := (k.emBits + 7) / 8
+	cands := []struct {
+		n string
+		v *big.Int
+	}{
+		{"crafted-em-plus-2^(8emLen)", new(big.Int).Add(em, new(big.Int).Lsh(big.NewInt(1), uint(8*emLen)))},
+		{"crafted-em-plus-2^emBits", new(big.Int).Add(em, new(big.Int).Lsh(big.NewInt(1), uint(k.emBits)))},
+		{"crafted-em-trailer-bit", new(big.Int).Xor(em, big.NewInt(1))},
+		{"crafted-em-middle-bit", new(big.Int).Xor(em, new(big.Int).Lsh(big.NewInt(1), uint(k.emBits/2)))},
+		{"crafted-em-top-payload-bit", new(big.Int).Xor(em, new(big.Int).Lsh(big.NewInt(1), uint(k.emBits-1)))},
+		{"crafted-minus-em", new(big.Int).Sub(N, em)},
+	}
+	zi := new(big.Int).SetBytes(z)
+	for _, c := range cands {
+		if c.v.Sign() <= 0 || c.v.Cmp(N) >= 0 || c.v.Cmp(em) == 0 {
+			continue
+		}
+		f := new(big.Int).Mul(c.v, emInv)
+		f.Mod(f, N)
+		f.Exp(f, d, N)
+		f.Mul(f, zi).Mod(f, N)
+		out = append(out, struct {
+			class string
+			data  []byte
+		}{c.n, k.fill(f)})
+	}
+	return
 }
